@@ -42,7 +42,9 @@ static GIT_CONFIG_THEME_REGEX: &str = r"^delta\.(.+)\.(light|dark)$";
 
 pub fn get_themes(git_config: Option<git_config::GitConfig>) -> Vec<String> {
     let mut themes: Vec<String> = Vec::new();
-    let git_config = git_config.unwrap();
+    let Some(git_config) = git_config else {
+        return themes;
+    };
     git_config.for_each(GIT_CONFIG_THEME_REGEX, |name, _| {
         if let Some(name) = name.strip_prefix("delta.") {
             if let Some((name, _)) = name.rsplit_once('.') {
